@@ -67,9 +67,19 @@
 // Facts worth knowing (from the design-phase probe, still true): every
 // Operator / SourceRunner gets its OWN Clock (both register a ticker under the
 // label "register"); the job's checkpoint ticker is fired with TickCheckpoint;
-// dkv's flush / compaction queues are process-global; operators always open
-// their DKV with the repo's default (large) memtable sizes; goroutines of
-// killed / retired nodes are leaked but isolated (their calls are dropped).
+// dkv's flush / compaction queues are process-global; operators open their DKV
+// with the repo's default (large) memtable sizes unless InstallDkvTune (deep.go:
+// process-wide verifhook.Tune handler + flush / compaction counters) says
+// otherwise; goroutines of killed / retired nodes are leaked but isolated
+// (their calls are dropped; Close waits for their background DKV tasks).
+//
+// Rescale at recovery: SetWorkers(n) before Restart boots the next generation
+// with n workers (KeyInGroup picks keys by key group, so their owner under any
+// worker count follows from partitioning.KeySpace). A job checkpoint read back
+// with ReadCheckpointState takes from every operator checkpoint only its own
+// key-group range (inherited tables still hold stale entries of other ranges).
+// A snapshot write that lands after a newer one (overlapping publications,
+// PStoreWrite gated) is observed as "published" with Superseded set.
 //
 // A panic of the code under test that unwinds through an adapter (deploy,
 // restore, ack handling) is converted into an error and a "panic" observation;
